@@ -1039,7 +1039,16 @@ func (c *Conn) handleBdat(arg string) {
 
 	if c.server.MaxMessageBytes != 0 && c.bytesReceived+int64(size) > c.server.MaxMessageBytes {
 		// Discard chunk itself without passing it to backend.
-		refuse(552, EnhancedCode{5, 3, 4}, "Max message size exceeded")
+		if last && c.server.LMTP {
+			// The final response to BDAT LAST is one reply per recipient.
+			n := len(c.recipients)
+			for _, rcpt := range c.recipients[:n-1] {
+				c.writeResponse(552, EnhancedCode{5, 3, 4}, "<"+rcpt+"> Max message size exceeded")
+			}
+			refuse(552, EnhancedCode{5, 3, 4}, "<"+c.recipients[n-1]+"> Max message size exceeded")
+		} else {
+			refuse(552, EnhancedCode{5, 3, 4}, "Max message size exceeded")
+		}
 
 		c.reset()
 		return
